@@ -5803,7 +5803,7 @@ nice_agent_send_messages_nonblocking_internal (
             offset_in_buffer = 0;
             current_offset = 0;
             for (j = 0; j < n_bufs; j++) {
-              if (message->buffers[j].size < offset - current_offset) {
+              if (message->buffers[j].size <= offset - current_offset) {
                 current_offset += message->buffers[j].size;
                 continue;
               } else {
@@ -5818,7 +5818,7 @@ nice_agent_send_messages_nonblocking_internal (
               local_bufs[local_message.n_buffers].buffer =
                   ((guint8 *) message->buffers[j].buffer) + offset_in_buffer;
               local_bufs[local_message.n_buffers].size =
-                  MIN (message->buffers[j].size, packet_len);
+                  MIN (message->buffers[j].size - offset_in_buffer, packet_len);
               packet_len -= local_bufs[local_message.n_buffers].size;
               offset += local_bufs[local_message.n_buffers++].size;
               offset_in_buffer = 0;
